@@ -384,6 +384,9 @@ DB = "nostr_relay/storage/db.py"
 KV = "nostr_relay/storage/kv.py"
 
 MUTANTS = [
+    M("c08-served-cache", "nostr_relay/web.py", "        try:\n            event = await self.storage.get_event(event_id)\n        except ValueError:",
+      "        try:\n            event = self._seen.get(event_id) if hasattr(self, \"_seen\") else None\n            if event is None:\n                event = await self.storage.get_event(event_id)\n        except ValueError:", "C08.served"),
+    M("c08-served-other-id", "nostr_relay/web.py", "            event = await self.storage.get_event(event_id)\n        except ValueError:", "            event = await self.storage.get_event(event_id.strip().lower()[:64])\n        except ValueError:", "C08.served"),
     M("c08-kv-all-or-nothing", KV, "            ids = set()\n            for tag in event.tags:\n                if tag[0] == \"e\" and len(tag) > 1:\n                    try:\n                        ids.add(bytes_from_hex(tag[1]))\n                    except (ValueError, TypeError):\n                        # not an event id: skip this reference only\n                        pass\n",
       "            try:\n                ids = set(\n                    (bytes_from_hex(tag[1]) for tag in event.tags if tag[0] == \"e\")\n                )\n            except (IndexError, ValueError):\n                ids = []\n", "C08.kv"),
     M("c08-kv-any-tag", KV, "                if tag[0] == \"e\" and len(tag) > 1:\n                    try:\n                        ids.add", "                if len(tag) > 1:\n                    try:\n                        ids.add", "C08.kv"),
